@@ -243,3 +243,19 @@ Proof.
   destruct (in_domain_served_as_made _ _ Hd) as (cf & H).
   exists m', s', cf. split; [exact Hrun|]. split; [exact Hr|exact H].
 Qed.
+
+(** ... and with FULL TRAVERSALS and the STATISTICS calls inside the history (Io_wrun_cache.v over Io_wrun.v): creation and ANY
+    history of calls, traversals and statistics, issued against ANY cache in front of each of the three files, is served with the
+    results of the flat files - every result what the ideal map of that moment says - and a flush of the three buffers leaves
+    [render] of the record-level state on the disk. *)
+From Aby Require Import Io_wrun Io_wrun_cache.
+Theorem C07_every_history_with_traversals_and_statistics_over_any_buffer : forall t n bk bv bh ops,
+  (1 <= n)%N -> pow2 n -> Forall (wop_wf t) ops -> wsized (Store.create t n) ops ->
+  exists m0 m' s' outs,
+    Io.create t n bk bv bh = Ok m0 /\
+    wstore_run (Store.create t n) ops = Ok (s', outs) /\
+    wio_run m0 ops = Ok (m', outs) /\
+    wagree_run ∅ ops outs /\
+    render s' = Ok (Io.images m') /\
+    exists cf, forall f, served_by_cache (Io.empty_st bk bv bh) (Io.m_st m') f (cf f).
+Proof. exact whistory_over_any_cache. Qed.
